@@ -32,7 +32,8 @@ REQUIRED = {"hist.observable_result": {"quick": 50000, "thorough": 2000000}, "hi
             "hist.pop_shrinks_stack_even_when_raising": {"quick": 10000, "thorough": 400000}, "hist.pop_raises_iff_cleanup_raised": {"quick": 10000, "thorough": 400000},
             "run.visibility": {"quick": 3000, "thorough": 150000}, "run.cleanups_lifo_exactly_once_at_scope_end": {"quick": 800, "thorough": 40000},
             "run.raising_cleanup_fails_owner_and_run": {"quick": 60, "thorough": 3000}, "run.execute_steps_restores_text_table": {"quick": 30, "thorough": 1500},
-            "hist.mode_restored": {"quick": 50, "thorough": 2000}}
+            "hist.mode_restored": {"quick": 50, "thorough": 2000},
+            "tworuns.testrun_scope_of_run1_is_gone": {"quick": 40, "thorough": 1500}}
 REQUIRED_SEEN = {"cleanup_registered_from": ["before_all", "before_feature", "before_rule", "before_scenario", "before_step", "step", "after_step",
                                              "after_scenario", "before_tag"],
                  "cleanup_layer": ["current", "feature", "scenario", "testrun"]}
@@ -99,7 +100,9 @@ def run_history(lab, mon, ops, rng=None, label="exhaustive"):
         return cid, cleanup
 
     def do_pop():
-        want = model.pop()
+        want = []
+        for c in model.pop():
+            want.extend(c if isinstance(c, tuple) else [c])
         n0 = len(ctx._stack)
         del log[:]
         raised = None
@@ -187,6 +190,23 @@ def run_history(lab, mon, ops, rng=None, label="exhaustive"):
             else:
                 ctx.add_cleanup(fn)
             model.add_cleanup(cid)
+        elif op == "cl_nesting":
+            # a cleanup (e.g. a fixture teardown) that itself works inside a nested scope: opens a layer, registers a passing
+            # cleanup there, closes it -- no net effect on the stack, and it must not disturb the bookkeeping of the outer pop
+            counter[0] += 1
+            cid = counter[0]
+            counter[0] += 1
+            inner_cid = counter[0]
+
+            def nesting_cleanup(cid=cid, inner_cid=inner_cid):
+                log.append(cid)
+                ctx._push("nested")
+                try:
+                    ctx.add_cleanup(lambda: log.append(inner_cid))
+                finally:
+                    ctx._pop()
+            ctx.add_cleanup(nesting_cleanup)
+            model.add_cleanup((cid, inner_cid))
         elif op in ("cl_layer_f", "cl_layer_s", "cl_layer_t", "cl_layer_x"):
             layer = {"f": "feature", "s": "scenario", "t": "testrun", "x": "nosuchlayer"}[op[-1]]
             cid, fn = make_cleanup(rng is not None and rng.random() < 0.15)
@@ -305,7 +325,9 @@ def run_history(lab, mon, ops, rng=None, label="exhaustive"):
     while model.depth > 1:
         trace.append("pop(final)")
         do_pop()
-    want = model.root_cleanups()
+    want = []
+    for c in model.root_cleanups():
+        want.extend(c if isinstance(c, tuple) else [c])
     del log[:]
     raised = None
     try:
@@ -523,6 +545,51 @@ def real_run(lab, mon, rng, case, sample=False):
     if sample:
         mon.sample({"features": RB.case_texts(case), "args": args, "events": [list(map(str, e[:3])) for e in ev[:50]]})
 
+def two_runs_on_one_runner(lab, mon, rng, n):
+    """ModelRunner.run() twice on the same runner object: the test-run scope of run 1 ends with run 1 -- its attributes are gone
+    and its cleanups have run exactly once (they are not run again at the end of run 2)."""
+    for i in range(n):
+        case = RB.gen_case(rng, tags=False, p_stop=0.0, p_dry=0.0, gen={"max_features": 2, "p_nonpass": rng.choice([0.0, 0.4])})
+        program = case["program"]
+        log = []
+        runno = [1]
+        seen_in_before_all = {}
+
+        def hook_plugin(state, context, name, elem, tag):
+            r = runno[0]
+            if name == "before_all":
+                seen_in_before_all[r] = {k: (k in context) for k in ("from_before_all_1", "from_feature_hook_1", "from_before_all_2")}
+                seen_in_before_all[r]["failed"] = bool(context.failed)
+                setattr(context, "from_before_all_%d" % r, r)
+                context.add_cleanup(lambda r=r: log.append(("testrun-cleanup", r, runno[0])))
+            elif name == "before_feature":
+                context._set_root_attribute("from_feature_hook_%d" % r, r) if False else None
+                context.add_cleanup(lambda r=r, en=elem.name: log.append(("feature-cleanup", r, runno[0], en)))
+                context.add_cleanup(lambda r=r: log.append(("testrun-cleanup-from-feature", r, runno[0])), layer="testrun")
+        second = {}
+
+        def second_run(st):
+            runno[0] = 2
+            st.calls[:] = []
+            st.outcomes = {t: ("pass" if oc not in ("undefined", "conv") else oc) for t, oc in program["outcomes"].items()}
+            second["verdict"] = st.runner.run()
+        obs = lab.run(program, args=[], hook_plugins=[hook_plugin], second_run=second_run)
+        mon.case(("two-runs", RB.strip_case(case)), True)
+        W = lambda **kw: RB.witness(case, **kw)
+        if obs.escaped is not None:
+            mon.check("tworuns.no_exception_escapes", False, lambda: W(escaped=repr(obs.escaped)))
+            continue
+        s2 = seen_in_before_all.get(2, {})
+        mon.check("tworuns.testrun_scope_of_run1_is_gone", 2 in seen_in_before_all and not s2.get("from_before_all_1") and not s2.get("failed"),
+                  lambda: W(visible_in_before_all_of_run_2=s2))
+        ran_in = {}
+        for rec in log:
+            if rec[0].startswith("testrun-cleanup"):
+                ran_in.setdefault((rec[0], rec[1]), []).append(rec[2])
+        bad = {str(k): v for k, v in ran_in.items() if v != [k[1]] and not (k[0] == "testrun-cleanup-from-feature" and len(v) >= 1 and set(v) == {k[1]})}
+        mon.check("tworuns.cleanups_exactly_once_in_their_own_run", not bad and any(k[1] == 1 for k in ran_in),
+                  lambda: W(registered_in_run__executed_in_runs=bad, log=log[:12]))
+
 
 def execute_steps_runs(lab, mon, rng, n):
     for i in range(n):
@@ -590,7 +657,7 @@ def run(spec, mon):
                     sink.seek(0)
                     sink.truncate()
         mon.count("exhaustive_histories_enumerated", idx if shard == 0 else 0)
-        ALL = OPS + ["cl_same", "cl_same", "cl_same_layer_f", "cl_same_layer_s", "fx_nested", "push_r", "cl_layer_s", "cl_layer_t", "cl_layer_x", "fx_plain", "fx_composite", "user_mode_raise", "create",
+        ALL = OPS + ["cl_nesting", "cl_nesting", "cl_same", "cl_same", "cl_same_layer_f", "cl_same_layer_s", "fx_nested", "push_r", "cl_layer_s", "cl_layer_t", "cl_layer_x", "fx_plain", "fx_composite", "user_mode_raise", "create",
                      ("set", "c"), ("get", "c"), ("del", "b"), ("in", "b"), ("root", "b"), ("get", "fx_value"), ("assign", "b")]
         for i in range(150 if tier == "quick" else 8000):
             ops = [rng.choice(ALL) for _ in range(rng.randint(5, 40))]
@@ -607,6 +674,7 @@ def run(spec, mon):
         case = RB.gen_case(rng, gen=gen, p_stop=0.2, p_dry=0.0, p_noskipped=0.2)
         real_run(lab, mon, rng, case, sample=(i == 0 and shard == 0))
     execute_steps_runs(lab, mon, rng, 3 if tier == "quick" else 100)
+    two_runs_on_one_runner(lab, mon, rng, 4 if tier == "quick" else 150)
 
 
 def replay(case, mon):
